@@ -164,6 +164,7 @@ let switches : (string * (flags -> flags)) list = [
   ("predicate-position-global", (fun f -> { f with f_predglobal = false }));
   ("predicate-number-trunc", (fun f -> { f with f_predtrunc = false }));
   ("string-value-indent", (fun f -> { f with f_strval = false }));
+  ("normalize-space-single-ws", (fun f -> { f with f_normsp = false }));
   ("string-bytes", (fun f -> { f with f_bytes = false }));
   ("floor-ceiling-round", (fun f -> { f with f_floor = false }));
   ("string-to-number", (fun f -> { f with f_s2n = false }));
